@@ -56,6 +56,7 @@ STATEMENT_CLASSES = set(['AssignmentNode', 'InvocationStatementNode', 'ReturnNod
                          'WhileNode', 'ForEachNode', 'GenerateInstanceEventNode', 'GenerateClassEventNode',
                          'GenerateCreatorEventNode', 'GeneratePreexistingNode', 'CreateInstanceEventNode',
                          'CreateClassEventNode', 'CreateCreatorEventNode'])
+CONSTANT_NAMES = set(c[0] for c in pbgen.CONSTS)
 EXPRESSION_CLASSES = set(['IntegerNode', 'RealNode', 'StringNode', 'BooleanNode', 'VariableAccessNode',
                           'SelfAccessNode', 'SelectedAccessNode', 'ParamAccessNode', 'FieldAccessNode',
                           'IndexAccessNode', 'EnumOrNamedConstantNode', 'UnaryOperationNode',
@@ -133,7 +134,7 @@ def check(ctx, rng, home, deciding=True):
     import xtuml
     from xtuml import navigate_one as one, navigate_many as many
     from bridgepoint import prebuild
-    g = pbgen.Gen(rng, home, events=True)
+    g = pbgen.Gen(rng, home, events=True, bare_constants=True)
     tree = g.program()
     text = om.render(tree, rng, layout=rng.choice(('canonical', 'random')), case=rng.choice(('lower', 'lower', 'lower', 'upper', 'capital', 'random')))
     m = c05.fresh_model()
@@ -360,6 +361,10 @@ def check(ctx, rng, home, deciding=True):
             kind = 'literal'
         elif n.cls == 'EnumOrNamedConstantNode' and n.fields['namespace'] in ('Color', 'Mood'):
             kind = 'literal'
+        elif n.cls == 'EnumOrNamedConstantNode' and n.fields['namespace'] == 'Consts':
+            kind = 'constant'
+        elif n.cls == 'VariableAccessNode' and n.fields['variable_name'] in CONSTANT_NAMES:
+            kind = 'constant'
         elif n.cls == 'VariableAccessNode':
             kind = 'selection' if isinstance(n.sem, tuple) and n.sem[0] in ('inst', 'set') else 'variable'
             if isinstance(n.sem, tuple) and n.sem[0] in ('array', 'array2'):
